@@ -7,7 +7,7 @@ from harness import worlds
 
 PROP = "C02"
 LEAN_MODULE = "Ztr.Props.C02"
-THEOREMS = ['Ztr.Runner.C02_verdict', 'Ztr.Runner.C02_tearDown_outcomes', 'Ztr.Runner.C02_child_channel', 'Ztr.Channel.C07_truncation_partial', 'Ztr.Channel.C07_spawn_failure']
+THEOREMS = ['Ztr.Runner.C02_verdict', 'Ztr.Runner.C02_tearDown_outcomes', 'Ztr.Runner.C02_child_channel', 'Ztr.Channel.C07_truncation', 'Ztr.Channel.C07_spawn_failure']
 RULE = ("worlds with bad outcomes of every kind placed at random (tests, layer setUp/tearDown failures, import "
         "errors, NotImplementedError tear-downs that are not errors), run in-process / with resumed children / -j N; "
         "children that die (os._exit(0), os._exit(3), SIGKILL, SIGSEGV) in a test phase or in a layer hook; tests that "
